@@ -130,7 +130,7 @@ func storedLeaves(core bool) []*Tree {
 	if core {
 		return out
 	}
-	out = append(out, leafN("b", "<=", "1"), leafN("b", ">=", "1.5"), leafN("b", "<", "2"), leafS("b", "!=", ""), leafS("c", "=", "x"), leafS("c", "!=", "x"),
+	out = append(out, leafN("b", "<=", "1"), leafN("b", ">=", "1.5"), leafN("b", ">=", "1"), leafN("b", ">", "1"), leafN("b", "<", "1"), leafN("b", "<", "2"), leafS("b", "!=", ""), leafS("c", "=", "x"), leafS("c", "!=", "x"),
 		leafS("a", "=~", `\\`), leafS("a", "!~", `^a`))
 	for _, h := range []string{`a'`, `\`, `"`, `%`, `'`, `a.b`} {
 		out = append(out, leafS("a", "=", h), leafS("a", "!=", h))
